@@ -20,6 +20,10 @@
 package c11
 
 import (
+	"encoding/binary"
+	"strconv"
+	"os"
+	"encoding/json"
 	"bytes"
 	"context"
 	"fmt"
@@ -146,7 +150,22 @@ func idOf(v []byte) string {
 	return ""
 }
 
+// produceBatchKeys identifies the record batches of a produce request.
+func produceBatchKeys(req *kmsg.ProduceRequest) (keys []string) {
+	for _, t := range req.Topics {
+		for _, p := range t.Partitions {
+			b := p.Records
+			if len(b) < 61 {
+				continue
+			}
+			keys = append(keys, fmt.Sprintf("%s%x/%d/%d/%d/%d", t.Topic, t.TopicID, p.Partition, int64(binary.BigEndian.Uint64(b[43:])), binary.BigEndian.Uint16(b[51:]), binary.BigEndian.Uint32(b[53:])))
+		}
+	}
+	return keys
+}
+
 type result struct {
+	SkippedFatalOnRetry int
 	Txns    []*txnRec
 	Logs    map[int32]*e2e.PartitionLog
 	Fired   []string
@@ -207,6 +226,7 @@ func run(p plan, watchdog time.Duration) *result {
 		return res
 	}
 	defer env.Close()
+	seenBatches := map[string]bool{} // produce batches handed to kfake, by (topic, partition, pid, epoch, base sequence)
 	for _, key := range []int16{22, 24, 0, 26} {
 		key := key
 		env.C.ControlKey(key, func(kreq kmsg.Request) (kmsg.Response, error, bool) {
@@ -221,6 +241,32 @@ func run(p plan, watchdog time.Duration) *result {
 				pendingCode[key] = q[1:]
 			}
 			mu.Unlock()
+			// A non-retriable code for a produce batch that an earlier attempt already handed to
+			// the broker (its response was killed) is an answer no broker gives - it either
+			// appended the batch, and answers the retry as a duplicate, or it did not. The client
+			// takes such an answer as "definitively not written" and reuses the sequence numbers.
+			// Sampled multi-fault plans can pair a kill-after with a code on the retry: the code is
+			// then dropped (counted), exactly like the producer checks' injection rule.
+			if pr, ok := kreq.(*kmsg.ProduceRequest); ok {
+				keys := produceBatchKeys(pr)
+				mu.Lock()
+				retried := false
+				for _, k := range keys {
+					if seenBatches[k] {
+						retried = true
+					}
+				}
+				if has && retried && !kerr.IsRetriable(kerr.ErrorForCode(code)) {
+					has = false
+					res.SkippedFatalOnRetry++
+				}
+				if !has {
+					for _, k := range keys {
+						seenBatches[k] = true
+					}
+				}
+				mu.Unlock()
+			}
 			if !has {
 				return nil, nil, false
 			}
@@ -430,6 +476,7 @@ func judge(r *vh.Run, p plan, res *result, mode string) {
 	r.Count("txns_error", nErr)
 	r.Count("txns_commit_unconfirmed", nUnconf)
 	r.Count("faults_fired", len(res.Fired))
+	r.Count("fatal_code_on_retried_batch_not_injected", res.SkippedFatalOnRetry)
 	if len(res.Fired) > 0 {
 		sort.Strings(res.Fired)
 		oc := fmt.Sprintf("c%d/a%d/e%d/u%d", min(nCommit, 1), min(nAbort, 1), min(nErr, 1), min(nUnconf, 1))
@@ -525,4 +572,55 @@ func TestCheck(t *testing.T) {
 		"a commit attempt that failed while a fault hit an EndTxn request of that transaction is 'unconfirmed': its visibility is not judged (the client cannot know), only that it is not merged into the next transaction",
 		"injected error codes are answered by a Control function without the broker acting, so they never contradict broker state",
 	)
+}
+
+// TestPlan runs one plan (JSON in VERIF_C11_PLAN, as found in a replay file's detail.plan)
+// VERIF_C11_N times and prints the judge's findings; a debugging aid, not a registered check.
+func TestPlan(t *testing.T) {
+	raw := os.Getenv("VERIF_C11_PLAN")
+	if raw == "" {
+		t.Skip("set VERIF_C11_PLAN")
+	}
+	var p plan
+	if err := json.Unmarshal([]byte(raw), &p); err != nil {
+		t.Fatal(err)
+	}
+	n, _ := strconv.Atoi(os.Getenv("VERIF_C11_N"))
+	if n == 0 {
+		n = 1
+	}
+	r := vh.Start(t, "C11")
+	for i := 0; i < n; i++ {
+		pendingCode = map[int16][]int16{}
+		res := run(p, 60*time.Second)
+		judge(r, p, res, "rt")
+		for _, tx := range res.Txns {
+			fmt.Printf("run %d txn %d gen %d tried=%s want=%v err1=%q retryAbort=%v err2=%q ids=%v ok=%v\n", i, tx.N, tx.Gen, tx.Tried, tx.WantCommit, tx.Err1, tx.RetryAbort, tx.Err2, tx.IDs, tx.PromiseOK)
+		}
+		inLog := map[string]bool{}
+		for _, lg := range res.Logs {
+			for _, lr := range lg.Records {
+				inLog[idOf(lr.Value)] = true
+			}
+		}
+		missing := false
+		for _, tx := range res.Txns {
+			if tx.Tried == "commit" && tx.Err1 == "" {
+				for _, id := range tx.IDs {
+					if tx.PromiseOK[id] && !inLog[id] {
+						fmt.Printf("run %d MISSING %s (txn %d committed, promise ok)\n", i, id, tx.N)
+						missing = true
+					}
+				}
+			}
+		}
+		if os.Getenv("VERIF_C11_DUMP") != "" && missing {
+			for part, lg := range res.Logs {
+				for _, lr := range lg.Records {
+					fmt.Printf("run %d log p%d off=%d pid=%d epoch=%d seq=%d control=%v/%d txn=%v val=%q\n", i, part, lr.Offset, lr.ProducerID, lr.ProducerEpoch, lr.Sequence, lr.Control, lr.ControlType, lr.Transactional, idOf(lr.Value))
+				}
+			}
+		}
+		fmt.Println("fired:", res.Fired, "violations so far:", r.Violations())
+	}
 }
